@@ -39,7 +39,14 @@ def step (_ : Unit) (j : Json) : Except String (Unit × Drv.Out) := do
       if nip11Headers != [("Content-Type", ct), ("Access-Control-Allow-Origin", cors)] then
         o := o.diff s!"nip11 headers: impl=({ct},{cors}) model={nip11Headers}"
       if !bodyOk then
-        o := o.mon "httpRoute" "nip11.body" "NIP-11 answer is not valid JSON equal to the configuration"
+        o := o.mon "httpRoute" "nip11.body" s!"NIP-11 answer is not valid JSON equal to the configuration (request headers besides Accept: {(fldD j "extra").compress})"
+      match fldD out "status" with
+      | .num n => if n.mantissa != 200 || n.exponent != 0 then
+          o := o.mon "httpRoute" "nip11.status" s!"NIP-11 answer has status {n.mantissa} (request headers besides Accept: {(fldD j "extra").compress})"
+      | _ => pure ()
+    match fldD j "extra" with
+    | .arr a => if a.size > 0 then o := o.tag "route.conditional-or-range-headers"
+    | _ => pure ()
     pure ((), o)
   | "kind" =>
     let k : Kind := ⟨← intF j "from", ← intF j "to"⟩
